@@ -41,7 +41,7 @@ MANIFEST = dict(
           "(classes raised must be recorded kinds); injection of every class at every primitive on several documents against `predict`; "
           "UnicodeDammit with individual lookups/decodings/the generator/the log call made to raise against `dammitE`; an instrumented "
           "UnicodeDammit against the model of its passes; fault injection through a harness TreeBuilder; histories across documents and retries (unclosed void elements first, stray end tags between text after; fresh/shared builder), each in its own interpreter, tree node by node against the same markup parsed alone in a fresh interpreter; "
-          "direct oracle (no other exception; tree well linked, renderable, searchable, copyable; ParserRejectedMarkup only with a cause)."),
+          "a render stream (trees holding <meta> charset declarations rendered for every output-encoding name shape: the tree's own original_encoding incl. every digit-named codec alias given as from_encoding or declared by the page, ordinary and Python-specific codecs, names special in regex templates; each declaration keeps its prefix and gets the name literally, stated over the live pattern's matches); direct oracle (no other exception; tree well linked, renderable incl. in its own original encoding, searchable, copyable; ParserRejectedMarkup only with a cause)."),
     design="7/C06",
     note=("PARTIAL. Trusted residue, named: `Prims.Within Gen.C06.recorded` - CPython's codecs.lookup raises only LookupError/ValueError/"
           "UnicodeEncodeError; str(bytes,codec,errors) only LookupError/ValueError/UnicodeEncodeError/UnicodeDecodeError/UnicodeError; html.parser's "
@@ -80,6 +80,10 @@ PY_CODECS = ["idna", "punycode", "unicode_escape", "unicode-escape", "raw_unicod
              "oem", "utf-7", "utf_8_sig", "charmap", "utf-16", "utf-32", "utf-16-le", "UTF-32BE"]
 REAL_CODECS = ["utf-8", "UTF8", "ascii", "latin-1", "iso-8859-1", "windows-1252", "cp1252", "cp1251", "koi8-r", "shift_jis", "x-sjis",
                "euc-jp", "gb2312", "gbk", "big5", "iso-2022-jp", "iso2022_kr", "cp037", "macintosh", "mac-roman", "cp437", "hz", "utf-16be"]
+# codec names that start with a digit (every such alias of the running CPython): legitimate values of original_encoding
+import encodings.aliases as _aliases
+DIGIT_CODECS = sorted(k for k in _aliases.aliases if k[:1].isdigit())
+REAL_CODECS = REAL_CODECS + DIGIT_CODECS
 BOGUS = ["no-such", "", " ", "utf-9", "utf_8_", "\x00", "a" * 300, "\u00e9", "\udfff", "utf-8\n", "8", "-", "_", "utf--8", "ISO_8859-1:1987",
          "x" * 5000, "cp" + "9" * 50]
 
@@ -243,6 +247,21 @@ def post_ops(soup):
             fn()
         except Exception as e:  # noqa
             return f"{name}() raised {type(e).__name__}: {str(e)[:120]}"
+    # rendered in its OWN encoding (what the document was read as): the charset substitution in <meta> runs with that name
+    oe = soup.original_encoding
+    if oe:
+        try:
+            soup.decode(eventual_encoding=oe)
+        except Exception as e:  # noqa
+            return f"decode(eventual_encoding=original_encoding={oe!r}) raised {type(e).__name__}: {str(e)[:120]}"
+        for name, fn in ((f"encode(original_encoding={oe!r})", lambda: soup.encode(oe)),
+                         (f"prettify(encoding=original_encoding={oe!r})", lambda: soup.prettify(encoding=oe))):
+            try:
+                fn()
+            except UnicodeError:
+                pass        # the codec's own refusal to encode (idna, punycode, ... with xmlcharrefreplace): CPython's, recorded by C08
+            except Exception as e:  # noqa
+                return f"{name} raised {type(e).__name__}: {str(e)[:120]}"
     return None
 
 
@@ -1517,6 +1536,104 @@ def stream_sequel(ctx):
                           case={"op": "sequel"} | h, expected={"nodes": want[:12]}, observed={"nodes": res["nodes"][:12]}, stream="sequel")
 
 
+META_SHAPES = [
+    '<meta http-equiv="Content-Type" content="text/html; charset=%s">', "<meta http-equiv='content-type' content='text/html;charset=%s'>",
+    '<meta HTTP-EQUIV="CONTENT-TYPE" CONTENT="text/html; CHARSET = %s ; x=y">', '<meta http-equiv="Content-Type" content="charset=%s">',
+    '<meta http-equiv="Content-Type" content="text/html; charset=%s; charset=other">', '<meta http-equiv="Content-Type" content="text/html">',
+    '<meta http-equiv="Content-Type" content="a;\ncharset=%s">', '<meta http-equiv="Content-Type" content="">',
+    '<meta http-equiv="Content-Type" content=";charset=">', '<meta charset="%s">', '<meta charset="%s" http-equiv="Content-Type" content="t; charset=%s">',
+    '<meta http-equiv="refresh" content="5; charset=%s">', '<meta name="x" content="text/html; charset=%s">',
+]
+RENDER_AS = ["utf-8", "ascii", "latin-1", "ISO-8859-1", "windows-1252", "utf-16", "shift_jis", "koi8-r", "idna", "punycode", "unicode_escape",
+             "raw_unicode_escape", "undefined", "utf-7", "\\1", "\\g<1>", "\\g<0>x", "a\\nb", "\\", "1\\2", "0", "00", "$1", "%s", "{0}"]
+
+
+def ref_substitution(value, encoding):
+    """what a charset-bearing attribute value becomes for an output encoding, stated directly: each declaration the live pattern finds keeps
+    its prefix and gets the new name (the whole declaration goes for a Python-specific codec); the name is taken literally"""
+    import bs4.element as el
+    if isinstance(value, el.CharsetMetaAttributeValue):
+        return "" if encoding in el.PYTHON_SPECIFIC_ENCODINGS else encoding
+    orig = value.original_value
+    out, pos = [], 0
+    for m in el.ContentMetaAttributeValue.CHARSET_RE.finditer(orig):
+        out.append(orig[pos:m.start()])
+        if encoding not in el.PYTHON_SPECIFIC_ENCODINGS:
+            out.append(orig[m.start():m.start(3)] + encoding)
+        pos = m.end()
+    out.append(orig[pos:])
+    return "".join(out)
+
+
+def render_case(markup, kwargs, encodings):
+    """-> (problem or None, number of charset-bearing attribute values)"""
+    from bs4 import BeautifulSoup
+    import bs4.element as el
+    with warnings.catch_warnings():
+        warnings.simplefilter("ignore")
+        soup = BeautifulSoup(markup, "html.parser", **kwargs)
+    vals = [(t.name, k, v) for t in soup.find_all(True) for k, v in t.attrs.items() if isinstance(v, el.AttributeValueWithCharsetSubstitution)]
+    encs = ([soup.original_encoding] if soup.original_encoding else []) + list(encodings)
+    for e in encs:
+        for tn, k, v in vals:
+            try:
+                got = v.substitute_encoding(e)
+            except Exception as ex:  # noqa
+                return f"<{tn} {k}={str(v)!r}>.substitute_encoding({e!r}) raised {type(ex).__name__}: {str(ex)[:100]}", len(vals)
+            want = ref_substitution(v, e)
+            if got != want:
+                return f"<{tn} {k}={str(v)!r}> rendered for encoding {e!r} becomes {got!r}, not {want!r}", len(vals)
+        try:
+            soup.decode(eventual_encoding=e)
+        except Exception as ex:  # noqa
+            return f"decode(eventual_encoding={e!r}) raised {type(ex).__name__}: {str(ex)[:100]}", len(vals)
+        for name, fn in (("encode", lambda: soup.encode(e)), ("prettify", lambda: soup.prettify(encoding=e)),
+                         ("encode_contents", lambda: soup.encode_contents(encoding=e))):
+            try:
+                fn()
+            except (UnicodeError, LookupError):
+                pass            # not an encoder / the codec refuses: CPython's
+            except Exception as ex:  # noqa
+                return f"{name}({e!r}) raised {type(ex).__name__}: {str(ex)[:100]}", len(vals)
+    return None, len(vals)
+
+
+def stream_render(ctx):
+    """'a tree that can be rendered': every constructed tree holding charset declarations, rendered for every output-encoding name shape —
+    the tree's own original_encoding (digit-named codec aliases given as from_encoding or declared by the page included), ordinary and
+    Python-specific codecs, and names that are special in regex replacement templates / format strings. No exception from the
+    repository's substitution; each declaration keeps its prefix and gets the name literally."""
+    r = ctx.rng("render")
+    cases = []
+    names = DIGIT_CODECS + ["utf-8", "latin-1", "cp1252", "koi8-r"]
+    for shape in META_SHAPES:
+        n = shape.count("%s")
+        for name in (names if ctx.thorough else ["8859", "1252", "646", "037", "utf-8", "koi8-r"] + r.sample(DIGIT_CODECS, 3)):
+            doc = "<html><head>" + (shape % ((name,) * n)) + "</head><body><p>café &amp; x</p></body></html>"
+            cases.append((doc, {}))                                                  # str: no original encoding
+            try:
+                b = doc.encode(name)
+            except Exception:  # noqa
+                b = doc.encode("ascii", "replace")
+            cases.append((b, {}))                                                    # the page declares it
+            cases.append((doc.encode("ascii", "xmlcharrefreplace"), {"from_encoding": name}))   # the caller says so
+    pool = DIGIT_CODECS + RENDER_AS
+    for doc, kw in cases:
+        encs = (DIGIT_CODECS if ctx.thorough else ["8859", "1252"] + r.sample(DIGIT_CODECS, 4)) + RENDER_AS
+        try:
+            problem, nvals = render_case(doc, kw, encs)
+        except Exception as ex:  # noqa (a constructor failure is the construct stream's business; still a failure here)
+            problem, nvals = f"construction raised {type(ex).__name__}: {str(ex)[:100]}", 0
+        ctx.case(("R", doc, repr(kw)) if nvals else None)
+        ctx.count("render:" + ("charset-values" if nvals else "no-charset-values"))
+        if problem and not capped(ctx, "render", problem[:40]):
+            ctx.violation(f"BeautifulSoup({describe(doc)}, 'html.parser'{''.join(', %s=%r' % kv for kv in kw.items())}): " + problem,
+                          case={"op": "render", "markup": enc_markup(doc), "kwargs": enc_kwargs(kw), "encodings": encs, "shown": describe(doc)},
+                          expected="renders for every output-encoding name; charset declarations keep their prefix and get the name literally",
+                          observed=problem, stream="render")
+    ctx.count("render:cases", len(cases))
+
+
 # --------------------------------------------------------------------------------------------
 # outside the quantifier: recorded only
 # --------------------------------------------------------------------------------------------
@@ -1723,6 +1840,7 @@ def run(ctx: Ctx):
     stream_dammit_raising(ctx, drv, bytes_cases)
     stream_fault(ctx, drv)
     stream_sequel(ctx)
+    stream_render(ctx)
     stream_inject(ctx, drv)
     record_outside(ctx)
 
@@ -1761,6 +1879,12 @@ def replay(path):
         print("model / property:", v.get("model_reply") or v.get("expected"))
         want = v.get("model_reply")
         return 0 if (got == want if want else not got.startswith("escapes")) else 1
+    if c.get("op") == "render":
+        markup, kwargs = dec_markup(c["markup"]), dec_kwargs(c.get("kwargs", {}))
+        problem, nvals = render_case(markup, kwargs, c["encodings"])
+        print("input:", describe(markup), kwargs, "| charset-bearing attribute values:", nvals)
+        print("problem:", problem)
+        return 1 if problem else 0
     if c.get("op") == "sequel":
         first, doc = dec_markup(c["first"]), c["doc"]
         want = fresh_process_trees([doc])[0]
